@@ -1,10 +1,6 @@
-use pdf::file::{FileOptions, ScanItem};
 fn main(){
-    for name in ["example.pdf","offset.pdf","xelatex.pdf","libreoffice.pdf","encrypted_aes_128.pdf","jpeg.pdf"] {
-        let bytes = std::fs::read(format!("/repo/files/{}",name)).unwrap();
-        let f = FileOptions::uncached().load(bytes).unwrap();
-        let mut n_ok=0; let mut n_tr=0; let mut err=None;
-        for it in f.scan() { match it { Ok(ScanItem::Object(..)) => n_ok+=1, Ok(ScanItem::Trailer(_)) => n_tr+=1, Err(e) => { err=Some(format!("{}",e).chars().take(80).collect::<String>()); break; } } }
-        println!("{}: objects={} trailers={} err={:?}", name, n_ok, n_tr, err);
-    }
+    let sp = pdfmon::props::c14::specials();
+    for i in [141usize,142,143] { println!("{} {}", i, sp[i].0); }
+    std::fs::write("/tmp/special142.pdf", &sp[142].1).unwrap();
+    println!("{}", String::from_utf8_lossy(&sp[142].1));
 }
